@@ -2607,3 +2607,92 @@ def touching_between_table(db, chk, cfg, rule="T.touching"):
                       "segments %s there (%d of %d cells wrong)" % (b[0], "horizontal" if b[3] else "vertical", b[1], b[2], b[0], b[4][0], b[1], b[4][1], b[2], b[4][2], b[0],
                                                                     b[5], "touch" if b[6] else "do not touch", len(bad), n), f.where, cfg=cfg)
     return n
+
+
+# ---------------------------------------------------------------------------
+# T.nearest-crossing: GetIntersection answers with the rectangle side the segment meets first (C08, C09)
+# ---------------------------------------------------------------------------
+
+def nearest_crossing_table(db, chk, cfg, rule="T.nearest-crossing"):
+    """GetIntersection(rectPath, p, p2, loc, ip): p lies in the side region `loc` (Left: p.x < left, whatever its y, ...).  Which sides the
+    segment p -> p2 crosses is answered by a hook on GetSegmentIntersection (the side is recognised by the two corners handed over);
+    the cells are the geometrically possible (entry side, exit side) pairs for p above / level with / below the rectangle (resp. left /
+    level / right for Top and Bottom): from a corner region the segment can enter through either of the two sides that meet there,
+    from the level part only through the side of its own region.  The function must report the *entry* side (the crossing closest to
+    p) in `loc`, and false with `loc` unchanged when nothing is crossed."""
+    f = db.one("GetIntersection")
+    if len(f.params) != 5:
+        raise AnalysisBroken("GetIntersection no longer takes (rectPath, p, p2, loc, ip)")
+    rp, pn, p2n, locn, ipn = [p.get("name") for p in f.params]
+    loc_enum = None
+    for en, vals in db.enums.items():
+        if set(("Left", "Top", "Right", "Bottom", "Inside")) <= set(vals):
+            loc_enum = list(vals)
+    if loc_enum is None:
+        raise AnalysisBroken("enum Location not found")
+    L, T, R, B = 10, 10, 20, 20
+    corners = {0: (L, T), 1: (R, T), 2: (R, B), 3: (L, B)}
+    side_of = {frozenset((0, 3)): "Left", frozenset((0, 1)): "Top", frozenset((1, 2)): "Right", frozenset((2, 3)): "Bottom"}
+    opposite = {"Left": "Right", "Right": "Left", "Top": "Bottom", "Bottom": "Top"}
+    # (region, sub-region) -> p and the possible entry sides
+    def cells():
+        for loc in ("Left", "Top", "Right", "Bottom"):
+            for sub in (-1, 0, 1):
+                if loc in ("Left", "Right"):
+                    px = L - 5 if loc == "Left" else R + 5
+                    py = (T - 5, 15, B + 5)[sub + 1]
+                    corner_side = ("Top", None, "Bottom")[sub + 1]
+                else:
+                    py = T - 5 if loc == "Top" else B + 5
+                    px = (L - 5, 15, R + 5)[sub + 1]
+                    corner_side = ("Left", None, "Right")[sub + 1]
+                entries = [loc] + ([corner_side] if corner_side else [])
+                for entry in entries:
+                    # the exit cannot be the entry, nor the other side meeting at p's corner (the segment moves away from it)
+                    exits = [None] + [s0 for s0 in ("Left", "Top", "Right", "Bottom") if s0 != entry and s0 not in entries]
+                    for ex in exits:
+                        yield loc, (px, py), entry, ex
+                yield loc, (px, py), None, None
+    n = 0
+    bad = []
+    for loc, (px, py), entry, ex in cells():
+        crossed = {s0 for s0 in (entry, ex) if s0}
+        env = {locn: loc_enum.index(loc), pn + ".x": px, pn + ".y": py, p2n + ".x": 0, p2n + ".y": 0}
+        for i0, (cx, cy) in corners.items():
+            env["%s[%d].x" % (rp, i0)] = cx
+            env["%s[%d].y" % (rp, i0)] = cy
+
+        def hook(name, argv, nd, crossed=crossed):
+            if name == "GetSegmentIntersection":
+                a = [canon(z) for z in db.call_args(nd)]
+                idx = []
+                for t0 in a[2:4]:
+                    m0 = re.match(r"^%s\[(\d)\]$" % re.escape(rp), t0.replace("(", "").replace(")", ""))
+                    if not m0:
+                        raise AnalysisBroken("T.nearest-crossing: GetSegmentIntersection is handed `%s`, not a corner of %s" % (t0, rp))
+                    idx.append(int(m0.group(1)))
+                sd = side_of.get(frozenset(idx))
+                if sd is None:
+                    raise AnalysisBroken("T.nearest-crossing: corners %s are not a side of the rectangle" % idx)
+                return sd in crossed
+            return NotImplemented
+        it = Interp(db, env, [], call_hook=hook)
+        try:
+            got = it.run_function(f)
+        except Unsupported as e:
+            raise AnalysisBroken("cannot interpret GetIntersection: %s" % e)
+        gl = it.env.get(locn)
+        gl = loc_enum[_raw_int(gl)] if gl is not None and 0 <= _raw_int(gl) < len(loc_enum) else gl
+        want_ret = entry is not None
+        want_loc = entry if entry else loc
+        n += 1
+        ok = bool(got) == want_ret and gl == want_loc
+        chk.instance(rule, {"p_in": loc, "p": (px, py), "enters_through": entry, "leaves_through": ex, "answer": [bool(got), gl], "cfg": cfg} if (not ok or n % 10 == 1) else None, ok=ok)
+        if not ok:
+            bad.append((loc, (px, py), entry, ex, bool(got), gl))
+    for b0 in bad[:1]:
+        chk.violation(rule, f.qual, "%s|%s|%s|%s" % (b0[0], b0[1], b0[2], b0[3]),
+                      "GetIntersection with p=%s in the %s region, the segment entering through %s%s: it answers (%s, loc=%s); the crossing closest to p is on the %s side "
+                      "(%d of %d cells wrong)" % (b0[1], b0[0], b0[2] or "no side", (" and leaving through " + b0[3]) if b0[3] else "", b0[4], b0[5], b0[2] or "-", len(bad), n),
+                      f.where, cfg=cfg)
+    return n
